@@ -48,6 +48,14 @@ def history(r, spec, ncalls=None, criteria=False, memory_choices=("on", "on", "o
         if spec["opt"] in gen.SMBO:
             n = min(n, smbo_cap)
         c = dict(n_iter=n, memory=r.choice(memory_choices), verbosity=r.choice(VERBS), via="search")
+        if criteria and r.random() < criteria:
+            kind = r.choice(["max_score", "early", "max_time"])
+            if kind == "max_score":
+                c["max_score"] = r.choice([-5, 0, 0.5, 3, 10])
+            elif kind == "early":
+                c["early_stopping"] = {"n_iter_no_change": r.choice([1, 2, 3])}
+            else:
+                c["max_time"] = r.choice([1, 2, 5])
         calls.append(c)
     spec["calls"] = calls
     return spec
